@@ -40,6 +40,11 @@ SITES = [
     ('file_stdout_from', MULTI, ['file f{N}.txt = -stdout-from % {S}'], 'text_source'),
     ('file_stderr_from_ignore', MULTI, ['file f{N}.txt = -stderr-from -ignore-exit-code % {S}'], 'text_source'),
     ('file_transformed_by_run', MULTI, ['file f{N}.txt = "abc" -transformed-by run % {S}'], 'transformer'),
+    ('file_transformed_by_run_ignore_exit', MULTI, ['file f{N}.txt = "abc" -transformed-by run -ignore-exit-code % {S}'],
+     'transformer'),
+    ('stdout_transformed_by_run_ignore_exit', ('assert',),
+     ['stdout -transformed-by run -ignore-exit-code % {S}', '  is-empty'], 'transformer'),
+    ('file_stdout_from_ignore_exit', MULTI, ['file f{N}.txt = -stdout-from -ignore-exit-code % {S}'], 'text_source'),
     ('env_value', MULTI, ['env -of !act X{N} = -stdout-from % {S}'], 'text_source'),
     ('env_value_both_sets', ('setup',), ['env X{N} = -stdout-from % {S}'], 'text_source'),
     ('setup_stdin_value', ('setup',), ['stdin = -stdout-from % {S}'], 'lazy_stdin'),
